@@ -113,6 +113,9 @@ def rule_r3(ctx: Ctx) -> None:
 
 
 def run(ctx: Ctx) -> None:
+    from .creationmodel import creation_rule
+    ctx.rule("C04.R6", "over ALL decision sequences on the creation model grammars: grow = bounded language, position-independent grow within it, full = full programs")
+    ctx.floor("C04.R6", creation_rule(ctx, "C04.R6", "exact"), 14, "model grammar x decider x limit")
     ctx.rule("C04.R1", "per form: creation increment == distance increment == true contribution (default mode); grow filter equivalent to 'fits'")
     ctx.rule("C04.R2", "all randomness in synthesis code flows through RandomSource / decider calls")
     ctx.rule("C04.R3", "full decider: the non-recursive disjunct is 'distance == remaining depth'")
